@@ -597,14 +597,10 @@ func runCase1(c Case, mode string, applied *bool) *core.Violation {
 			}
 		}
 		if op.K == "reopen" {
-			// a restart builds the sessions' graph from the table.  While a failed write on TS_Links has
-			// left an agent with two stored parents, what the restore makes of them is not fixed: the
-			// history ends here.  Every other known disagreement ends with the restart (the graph is
-			// the table's from here on).
-			if end, err := ex.atReopen(w); err != nil {
+			// a restart builds the sessions' graph from the table: the disagreements a failed write on
+			// TS_Links has left end here, except for an agent with two stored parents (fault_test.go)
+			if err := ex.atReopen(w); err != nil {
 				return core.V("harness|cannot-read-links", "reading TS_Links: %v", err)
-			} else if end {
-				return nil
 			}
 			if err := w.Reopen(); err != nil {
 				return core.V("reopen|failed", "step %d: reopening the database file: %v", step, err)
